@@ -420,3 +420,43 @@ func TextMutation(t *rapid.T, memo string) (string, string) {
 		return memo[:1+uniform(t, "txt/cut", len(memo)-1)], kind
 	}
 }
+
+// OneofSibling sets, in one fee info of the memo tree, the other member of the fee-type oneof as
+// well (with a value, with null, or with an empty object). Returns false when the memo has no fee
+// info.
+func OneofSibling(t *rapid.T, root *JV) bool {
+	var nodes []node
+	collect(root, "", nil, 0, "", &nodes)
+	var infos []node
+	for _, n := range nodes {
+		if n.v.Kind != memo.JObj {
+			continue
+		}
+		for _, kv := range n.v.Obj {
+			if kv.K == "basis_points" || kv.K == "amount" {
+				infos = append(infos, n)
+				break
+			}
+		}
+	}
+	if len(infos) == 0 {
+		return false
+	}
+	n := infos[uniform(t, "oneof/info", len(infos))]
+	has := map[string]bool{}
+	for _, kv := range n.v.Obj {
+		has[kv.K] = true
+	}
+	var kv JKV
+	if !has["amount"] {
+		kv = JKV{"amount", JRaw(Pick(t, "oneof/amount", []string{`null`, `{"value":"7"}`, `{}`, `null`}))}
+	} else {
+		kv = JKV{Pick(t, "oneof/name", []string{"basis_points", "basisPoints"}), JRaw(Pick(t, "oneof/bps", []string{`null`, `{"value":100}`, `{}`, `null`}))}
+	}
+	if Chance(t, "oneof/front", 50) {
+		n.v.Obj = append([]JKV{kv}, n.v.Obj...)
+	} else {
+		n.v.Obj = append(n.v.Obj, kv)
+	}
+	return true
+}
